@@ -58,6 +58,19 @@ fn strategy_long(vd: &'static ViewDef) -> BoxedStrategy<Case> {
         .boxed()
 }
 
+/// one prefix is 135 000 values long (thorough 1.1e6; past 2^16 and 2^17 updates), derived in the check from ints = [K, N, seed, len, shape]
+fn strategy_ultra(vd: &'static ViewDef) -> impl Fn(Tier) -> BoxedStrategy<Case> + Send + Sync {
+    move |tier: Tier| {
+        (prop_oneof![3 => vd.min_n..=vd.min_n + 7, 1 => 9usize..=40], 1usize..=4, any::<u64>(), 0i64..4)
+            .prop_flat_map(move |(n, m, seed, shape)| {
+                let k = (vd.k)(n, m);
+                let cfg = StreamCfg::new(n).scale(Rat(1, 8)).kmax(1 << 20);
+                (gen::stream(cfg.len(k, k + n).segs(5)), gen::stream(cfg.len(0, 3 * n).segs(3))).prop_map(move |(s, p2)| Case { spec: Some((vd.mk)(n, m)), xs: vec![], ys: p2, zs: s, a: Rat(1, 1), b: Rat(0, 1), ints: vec![k as i64, n as i64, (seed >> 1) as i64, tier.pick(135_000, 1_100_000) as i64, shape], ..Default::default() })
+            })
+            .boxed()
+    }
+}
+
 fn strategy(vd: &'static ViewDef, max_exp: u32) -> impl Fn(Tier) -> BoxedStrategy<Case> + Send + Sync {
     move |tier: Tier| {
         let long = strategy_long(vd);
@@ -107,12 +120,15 @@ fn check(vd: &'static ViewDef, exact: bool) -> impl Fn(&Case) -> Verdict + Send 
         let spec = case.spec();
         let k = case.ints[0] as usize;
         let n = case.ints[1] as usize;
-        let id = format!("C03/{}/suffix/{}", vd.name, if exact { "Q" } else { "f64" });
+        let ultra = case.ints.len() >= 5;
+        let id = format!("C03/{}/{}/{}", vd.name, if ultra { "ultra" } else { "suffix" }, if exact { "Q" } else { "f64" });
         let s = bigs(&case.zs);
+        let ultra_prefix: Vec<Rat> = if ultra { gen::ultra_stream(case.ints[2] as u64, case.ints[3] as usize, case.ints[4]).into_iter().map(|k| Rat(k, 8)).collect() } else { vec![] };
+        let xs: &[Rat] = if ultra { &ultra_prefix } else { &case.xs };
         if s.len() < k {
             return Verdict::Discard("suffix shorter than K".into());
         }
-        let h1: Vec<Rat> = case.xs.iter().chain(case.zs.iter()).copied().collect();
+        let h1: Vec<Rat> = xs.iter().chain(case.zs.iter()).copied().collect();
         let h2: Vec<Rat> = case.ys.iter().chain(case.zs.iter()).copied().collect();
         let (o1, o2): (Vec<Option<XV>>, Vec<Option<XV>>) = if exact {
             (run_q(spec, &bigs(&h1)), run_q(spec, &bigs(&h2)))
@@ -135,7 +151,7 @@ fn check(vd: &'static ViewDef, exact: bool) -> impl Fn(&Case) -> Verdict + Send 
         } else {
             f(1e-9) * &maxmag
         };
-        let (l1, l2) = (case.xs.len(), case.ys.len());
+        let (l1, l2) = (xs.len(), case.ys.len());
         let mut compared = 0;
         let mut exempted = 0;
         let mut differed_before = false;
@@ -176,7 +192,7 @@ fn check(vd: &'static ViewDef, exact: bool) -> impl Fn(&Case) -> Verdict + Send 
                         spec.show(),
                         j + 1,
                         show_opt(a),
-                        show_rats(&case.xs),
+                        if ultra { format!("of {} values: ultra_stream(seed {}, shape {}) on the 1/8 grid, starting {}", xs.len(), case.ints[2], case.ints[4], show_rats(&xs[..8])) } else { show_rats(xs) },
                         show_opt(b),
                         show_rats(&case.ys),
                         show_rats(&case.zs)
@@ -185,7 +201,7 @@ fn check(vd: &'static ViewDef, exact: bool) -> impl Fn(&Case) -> Verdict + Send 
             }
         }
         // the last K values' predecessors differ (or one history has none): the prefixes really are different
-        let prefixes_differ = case.xs != case.ys;
+        let prefixes_differ = xs != &case.ys[..];
         let pre_out_differ = differed_before || o1.get(l1.wrapping_sub(1)).map(|x| x.clone()) != o2.get(l2.wrapping_sub(1)).map(|x| x.clone());
         let mut labels = vec![];
         if exempted > 0 {
@@ -194,7 +210,7 @@ fn check(vd: &'static ViewDef, exact: bool) -> impl Fn(&Case) -> Verdict + Send 
         if l1 != l2 {
             labels.push("prefix_lengths_differ".into());
         }
-        if case.ys.is_empty() || case.xs.is_empty() {
+        if case.ys.is_empty() || xs.is_empty() {
             labels.push("one_prefix_empty".into());
         }
         if pre_out_differ {
@@ -219,6 +235,11 @@ pub fn clauses() -> Vec<Clause> {
     for vd in VIEWS.iter() {
         let rule = "view, N (1..24, thorough ..120; M in 1..6 for PFE's average), suffix of exactly K or K+{1,N/2,N} values, two prefixes of 0..5N+3 values each scaled by 2^e (e <= 40 in Q, <= 20 in f64), also: empty prefix, prefix = copy of the suffix, prefix ending in a flat stretch at a far level. K = N (N+1 for Rsi, MyRSI, Roc; 2N for Alma; N+M-1 / N+2M-1 for PFE over Sma(M) / Alma(M)). Compared at every suffix position >= K; held-output steps (MyRSI flat window, Roc zero base) exempt and counted. Non-trivial: the prefixes differ AND the two runs' outputs differed before the suffix was complete (the check could have failed).";
         v.push(Clause::generated("C03", format!("C03/{}/suffix/Q", vd.name), rule, 600, 20_000, strategy(vd, 40), check(vd, true)).with_shard(100));
+        let urule = "one prefix of 135 000 values (thorough 1.1e6; past 2^16 and 2^17 updates: wide noise, walk with plateaus, zero stretches or ties around a level, on the 1/8 grid, derived from a generated seed), the other 0..3N grammar values, N from the view's minimum to +7 (1 in 4: 9..40); same oracle and non-triviality rule.";
+        v.push(Clause::generated("C03", format!("C03/{}/ultra/Q", vd.name), urule, 1, 20, strategy_ultra(vd), check(vd, true)).with_shard(1));
+        if vd.f64_leg {
+            v.push(Clause::generated("C03", format!("C03/{}/ultra/f64", vd.name), urule, 1, 20, strategy_ultra(vd), check(vd, false)).with_shard(1));
+        }
         if vd.f64_leg {
             v.push(Clause::generated("C03", format!("C03/{}/suffix/f64", vd.name), rule, 600, 20_000, strategy(vd, 20), check(vd, false)).with_shard(200));
         }
